@@ -172,11 +172,20 @@ def _c15(E, tier, seed, res):
     lo = (seed % 1000) * nseeds
     t0 = time.time()
     done = 0
-    for a in range(lo, lo + nseeds, 16):
-        b = min(a + 16, lo + nseeds)
-        rc, out, err = _cargo(E, cdir, ["miri", "run", "--offline"], "target/miri", toolchain="+nightly",
-                              extra_env={"MIRIFLAGS": "-Zmiri-many-seeds=%d..%d" % (a, b)}, clean_pkg=False, timeout=3000,
-                              prog_args=[1, 3, 4, seed] if tier == "quick" else [1, 4, 6, seed])
+    def miri_batch(ab):
+        return _cargo(E, cdir, ["miri", "run", "--offline"], "target/miri", toolchain="+nightly",
+                      extra_env={"MIRIFLAGS": "-Zmiri-many-seeds=%d..%d" % ab}, clean_pkg=False, timeout=3000,
+                      prog_args=[1, 3, 4, seed] if tier == "quick" else [1, 4, 6, seed])
+    # one interpreter is single-threaded: the quick tier runs its 6 seeds in one batch, the thorough tier its first batch
+    # alone (it builds) and the other seven side by side
+    size = 16 if tier == "quick" else 8
+    batches = [(a, min(a + size, lo + nseeds)) for a in range(lo, lo + nseeds, size)]
+    results = [miri_batch(batches[0])]
+    if len(batches) > 1:
+        from concurrent.futures import ThreadPoolExecutor
+        with ThreadPoolExecutor(max_workers=7) as ex:
+            results += list(ex.map(miri_batch, batches[1:]))
+    for (a, b), (rc, out, err) in zip(batches, results):
         if rc is None:
             res["inconclusive"].append("miri leg: watchdog fired")
             break
